@@ -12,6 +12,19 @@ W[("C14", "cache_key_encoding")] = {"op": "cache", "in": {"ops": [inv(0, [["a", 
 W[("C14", "cache_stat_error_nil_deref")] = {"op": "cache", "in": {"ops": [inv(0, [["a"]]), {"k": "corrupt", "site": 0, "kb": [["a"]], "ka": None, "timeout": 0, "msg": False, "dt": 0, "kind": "loop"}, inv(0, [["a"]])]}}
 W[("C15", "raw_cache_partial_entry")] = {"op": "crashwrite", "in": {"flavour": "raw", "n": 3, "previous": "none", "same": False}}
 W[("C16", "files_unclean_dir_part")] = {"op": "files", "in": {"tree": [{"path": "a", "kind": "dir", "target": ""}, {"path": "a/x", "kind": "file", "target": ""}], "ctxDir": "", "typed": "a//", "dirOnly": False, "suffixes": None, "chdir": None}}
+def _flag(name, short="", kind="string"):
+    return {"name": name, "short": short, "kind": kind, "persistent": False, "hidden": False, "deprecated": False, "shortDeprecated": False, "mutex": None}
+def _cmd(name, parent, flags, inter=True, npos=1, posAny=True, ndash=1, dashAny=True):
+    return {"name": name, "aliases": None, "parent": parent, "hidden": False, "deprecated": False, "interspersed": inter, "disableFlagParsing": False,
+            "flags": flags, "npos": npos, "posAny": posAny, "ndash": ndash, "dashAny": dashAny}
+T1 = {"cmds": [_cmd("root", -1, [_flag("loc", "l")]), _cmd("sub", 0, [_flag("subflag", "s")])]}
+T2 = {"cmds": [_cmd("root", -1, [_flag("name", "n"), _flag("cnt", "c")], inter=False)]}
+W[("C01", "descent_heuristics")] = {"op": "parse", "in": {"tree": T1, "words": ["pos", "sub", ""]}}
+W[("C07", "descent_heuristics")] = {"op": "parse", "in": {"tree": T1, "words": ["pos", "sub", "-"]}}
+W[("C01", "lone_dash_or_empty_word")] = {"op": "parse", "in": {"tree": T2, "words": ["-", "--name", ""]}}
+W[("C07", "lone_dash_or_empty_word")] = {"op": "parse", "in": {"tree": T2, "words": ["-", "-"]}}
+W[("C07", "subcommand_after_parent_flags")] = {"op": "parse", "in": {"tree": T1, "words": ["--loc", "v", ""]}}
+W[("C01", "shorthand_series_after_dash")] = {"op": "parse", "in": {"tree": T2, "words": ["--", "-c"]}}
 lines = [json.dumps({"op": w["op"], "id": "%s#%s" % k, "in": w["in"]}) for k, w in W.items()]
 h = subprocess.run(['/verif/bin/harness', 'run'], input="\n".join(lines).encode(), stdout=subprocess.PIPE)
 d = subprocess.run(['/verif/bin/driver'], input=h.stdout, stdout=subprocess.PIPE)
